@@ -338,6 +338,18 @@ def case_tree(rng: Any, ctx: Ctx, index: int) -> None:
 
         if what in ('dot', 'dot-complex'):
             y = jax.tree.map(lambda l: jnp.asarray(np.roll(np.asarray(l), 1) + 1, dtype=l.dtype), x)
+            if rng.integers(2):
+                # mixed leaves: a complex leaf facing a real one (either side)
+                real = jax.tree.map(lambda l: jnp.asarray(np.real(np.asarray(l)) + 2, dtype=jnp.float32), x)
+                if rng.integers(2):
+                    y = real
+                else:
+                    x2, y = real, x
+                    got = complex(T.dot(x2, y))
+                    ref = sum(complex(np.vdot(np.asarray(a), np.asarray(b))) for a, b in zip(jax.tree.leaves(x2), jax.tree.leaves(y)))
+                    if not np.isclose(got, ref, rtol=1e-5, atol=1e-5):
+                        LOG.violation('C20', mon, f'{what}/value', f'{got} vs Hermitian sum {ref} (real x complex)')
+                    return
             got = complex(T.dot(x, y))
             ref = sum(complex(np.vdot(np.asarray(a), np.asarray(b))) for a, b in zip(ls, jax.tree.leaves(y)))
             tol = 2e-2 if any(np.dtype(l.dtype).itemsize == 2 for l in ls) else 1e-5
